@@ -15,6 +15,7 @@ FEATURE_P = {
     "cxx_keywords": 0.4, "renamed_types": 0.5, "explicit_redecl": 0.5, "and_expr": 0.4,
     "renamed_enum": 0.12,       # open finding C01-K4
     "mixed_expr": 0.4, "agg_in_select": 0.4,
+    "optional_elems": 0.12,     # open finding C01-K5
     "renamed_select": 0.12,     # open finding C01-K3
     "inverse": 0.0,
 }
@@ -174,7 +175,7 @@ class P21Check(_CheckBase):
     # the build cost of one set.  Checks that need other constructs (C01: renamed types, C11: INVERSE) name their own pool.
     pool = "pool"
     n_generated = {"quick": 10, "thorough": 30}
-    feature_overrides = {"renamed_select": False, "renamed_enum": False}   # constructs of open C01 findings stay out
+    feature_overrides = {"renamed_select": False, "renamed_enum": False, "optional_elems": False}   # constructs of open C01 findings stay out
     max_insts = 12
     sizes = [1, 2, 3, 5, 8]
 
